@@ -832,6 +832,12 @@ class Crystal(object):
             # reconstruct `t` as a rational vector; if fail, kick out
             T = np.around(M*t).astype(int)
             if not self.__isclose__(t, T/M): continue
+            # use the representative of t (modulo lattice vectors) with the smallest components, and only
+            # accept it if {t, a_i, a_j} generates the full lattice: the smallest non-zero component of T must
+            # divide M and the other components. (Some multiple of a rejected translation is accepted.)
+            T = (T + (M-1)//2) % M - (M-1)//2
+            Tmin = min(abs(v) for v in T if v != 0)
+            if M % Tmin != 0 or any(v % Tmin != 0 for v in T): continue
             t = T/M
             trans = True
             for atomlist, spinlist in zip(self.basis, spins):
